@@ -3,7 +3,7 @@
    regenerated from /repo on every run (constant + source text of the helpers, tied in
    Proofs_shape.v).  Names are label lists, root first; [canon] folds ASCII case. *)
 From Sdns Require Import Common.Base Gen.C07 C07.Model C07.Proofs_names C07.Proofs_exchange
-  C07.Proofs_glue C07.Proofs_referral C07.Proofs_contain C07.Proofs_chase C07.Proofs_gluehist C07.Proofs_local C07.Proofs_fold C07.Proofs_zone C07.Proofs_sub C07.Proofs_gen C07.Proofs_gluename C07.Proofs_twosite C07.Proofs_deleg C07.Proofs_shape.
+  C07.Proofs_glue C07.Proofs_referral C07.Proofs_contain C07.Proofs_chase C07.Proofs_gluehist C07.Proofs_local C07.Proofs_fold C07.Proofs_zone C07.Proofs_sub C07.Proofs_gen C07.Proofs_gluename C07.Proofs_twosite C07.Proofs_deleg C07.Proofs_min C07.Proofs_minname C07.Proofs_filter C07.Proofs_shape.
 Open Scope N_scope.
 
 (* A reply is accepted only when it parses, carries the outstanding query's ID and - when the
@@ -332,6 +332,8 @@ Proof. exact exchange_then_glue_origin. Qed.
 Print Assumptions glue_origin_is_the_asked_question.
 
 (* THE DELEGATION CACHE ACROSS ANY HISTORY (processAuthoritySection -> processDelegation -> checkGlueRR -> lookupV4Nss).
+   A history is any sequence of replies to the client's question (DelegMsg) and replies to qname-minimised questions
+   (DelegMin, session 5: the minimized = true routes of resolve / processAuthoritySection / processDelegation).
    Whatever the servers of whatever zones send - any response code (resolve() hands over every reply with an empty
    Answer and a non-empty Authority; the model never looks at u_rcode), any NS sets, glue and address-lookup results -
    every entry on file afterwards, and every provisional entry published while NS-host addresses were being looked
@@ -352,7 +354,7 @@ Print Assumptions delegation_cache_history_sound.
 Theorem delegation_cached_only_below_sender :
   forall local evs st results k d,
   deleg_history local ([], []) evs = (st, results) -> In (k, d) (snd st) ->
-  exists auth level q m order answers, In (DelegMsg auth level q m order answers) evs /\
+  exists e auth level q m, In e evs /\ ev_parts e = (auth, level, q, m) /\
     is_sub auth k = true /\ (length auth < length k)%nat /\ is_sub k (q_name q) = true.
 Proof. exact deleg_only_below_sender. Qed.
 Print Assumptions delegation_cached_only_below_sender.
@@ -379,3 +381,90 @@ Theorem resolution_starts_inside_labelled_zone :
   exists k, In (k, e) (snd st) /\ deleg_entry_ok local evs k e.
 Proof. exact search_cache_sound. Qed.
 Print Assumptions resolution_starts_inside_labelled_zone.
+
+(* QNAME-MINIMISED HOPS (session 5).  With minimisation on - the default - a zone's servers are first asked ancestors of
+   the client's name, so what a hostile server sends reaches the resolver on this route first.
+
+   What is asked instead of the question: same type and class, the last level+1 labels of the name - a proper ancestor
+   of it - and only while minimisation is on, not abandoned, and the level is below qnameMinLevel. *)
+Theorem minimised_question_is_an_ancestor_of_the_question :
+  forall qml nomin level q mq,
+  minimize qml nomin level q = Some mq ->
+  q_type mq = q_type q /\ q_class mq = q_class q /\
+  q_name mq = firstn (S level) (q_name q) /\ length (q_name mq) = S level /\
+  (S level < length (q_name q))%nat /\ is_sub (q_name mq) (q_name q) = true /\
+  nomin = false /\ (level < qml)%nat.
+Proof. exact minimize_sound. Qed.
+Print Assumptions minimised_question_is_an_ancestor_of_the_question.
+
+(* Resolver.lookup tests a referral against the question it sent (the minimised one), processDelegation against the
+   client's: whatever the first lets through, the second accepts - the cache boundary is never the stricter of the two,
+   so a referral that wins the lookup is not lost there, and one refused there was off the client's path *)
+Theorem referral_valid_for_minimised_question_is_valid_for_the_question :
+  forall qml nomin level q mq i auth,
+  minimize qml nomin level q = Some mq -> valid_referral i auth mq = true -> valid_referral i auth q = true.
+Proof. exact valid_for_minimised_is_valid_for_full. Qed.
+Print Assumptions referral_valid_for_minimised_question_is_valid_for_the_question.
+
+(* the glue bailiwick zone of a minimised hop (checkGlueRR reads its origin from the accepted message's question, here
+   the minimised name) is the zone it would cut out of the client's name: glue_in_bailiwick / glue_in_delegating_zone
+   apply unchanged *)
+Theorem minimised_hop_glue_zone_is_the_questions :
+  forall ipv6 local level qn hosts extra,
+  check_glue ipv6 local level (firstn (S level) qn) hosts extra = check_glue ipv6 local level qn hosts extra.
+Proof. exact check_glue_minimised. Qed.
+Print Assumptions minimised_hop_glue_zone_is_the_questions.
+
+(* "used to answer a different question": a reply to a minimised question that carries ANY Answer section - records
+   for the minimised name, aliases, forged records for other zones - is dropped whole: caches unchanged, nothing
+   published, the same servers are asked the next name *)
+Theorem answer_to_a_minimised_question_is_dropped :
+  forall local st auth level q m order answers,
+  u_answer m <> [] -> deleg_apply local st (DelegMin auth level q m order answers) = (st, mk_dr DoRetry [] None).
+Proof. exact min_hop_answer_dropped. Qed.
+Print Assumptions answer_to_a_minimised_question_is_dropped.
+
+(* for ALL replies to a minimised question: the hop changes nothing (retry with the next name / the message handed
+   back as a negative answer), or its Answer section is empty and it has exactly the effect - caches, provisional
+   publications, stored entry - the same message has as the reply to the client's own question, except that
+   "no reachable server" lets a minimised hop go on with the next name *)
+Theorem minimised_hop_does_nothing_or_what_the_full_hop_does :
+  forall local st auth level q m order answers,
+  (deleg_apply local st (DelegMin auth level q m order answers) = (st, mk_dr DoRetry [] None) \/
+   deleg_apply local st (DelegMin auth level q m order answers) = (st, mk_dr DoAuthority [] None)) \/
+  (u_answer m = [] /\
+   same_effect (deleg_apply local st (DelegMin auth level q m order answers)) (deleg_apply local st (DelegMsg auth level q m order answers))).
+Proof. exact min_hop_refines_full. Qed.
+Print Assumptions minimised_hop_does_nothing_or_what_the_full_hop_does.
+
+(* Resolver.minimize's name computation IS the model's: its five statements composed over the machine-translated
+   dns.PrevLabel (go_minimize_name, Proofs_minname.v) give, on the presentation string of every escape-free name and
+   for every qnameMinLevel / level / nomin, exactly Model.minimize (Some None = the request is sent as it is) *)
+Theorem minimize_name_computation_is_model :
+  forall fuel qml nomin level qname t c,
+  plain qname -> (length (pres qname) < fuel)%nat ->
+  go_minimize_name fuel (Z.of_nat qml) nomin (Z.of_nat level) (pres qname) =
+    Some (option_map (fun mq => pres (q_name mq)) (minimize qml nomin level (mk_q qname t c))).
+Proof. exact minimize_name_is_model. Qed.
+Print Assumptions minimize_name_computation_is_model.
+
+(* THE ANSWER-SECTION BAILIWICK FILTER IS THE MODEL'S (session 5).  dnsutil.FilterRRsToZone - the first statement of
+   Resolver.answer since fix 767eb6f - is machine-translated as a whole (dns.RR as a sum type, the loop as a generated
+   Fixpoint, NameInZone as its callee).  For every list of records with escape-free owner names (any letter case, any
+   record type) and every escape-free zone name it keeps exactly the records owned inside the zone - Model.in_zone_answer's
+   test is_sub - and of those it also drops an NSEC record whose next-domain name lies outside the zone. *)
+Theorem FilterRRsToZone_is_model :
+  forall fuel zone (l : list (I_RR * (name * option name))),
+  (0 < fuel)%nat -> plain zone -> Forall view_ok l ->
+  go_FilterRRsToZone fuel (map fst l) (pres zone) = Some (map fst (filter (keep_in_zone zone) l)).
+Proof. exact gen_FilterRRsToZone. Qed.
+Print Assumptions FilterRRsToZone_is_model.
+
+Theorem FilterRRsToZone_is_in_zone_answer_on_owners :
+  forall fuel zone (l : list (N * T_RR_Header * name)),
+  (0 < fuel)%nat -> plain zone ->
+  Forall (fun p => T_RR_Header_Name (snd (fst p)) = pres (snd p) /\ plain (snd p)) l ->
+  go_FilterRRsToZone fuel (map (fun p => I_RR_other (fst (fst p)) (snd (fst p))) l) (pres zone) =
+    Some (map (fun p => I_RR_other (fst (fst p)) (snd (fst p))) (filter (fun p => is_sub zone (snd p)) l)).
+Proof. exact gen_FilterRRsToZone_owners. Qed.
+Print Assumptions FilterRRsToZone_is_in_zone_answer_on_owners.
